@@ -65,7 +65,7 @@ def source_for(i, cfg, aspect):
     fmt = cfg["color_format"]
     if fmt in ("cbdt", "sbix"):
         h = cfg["bitmap_resolution"]
-        w = max(4, int(round(h * aspect)))
+        w = min(255, max(4, int(round(h * aspect))))  # CBDT cannot hold a bitmap wider than 255 px (C14 judges the limits)
         return {"png": make_png(w, h, 1000 + i)}, (0, 0, w, h)
     vbh = 100.0
     vbw = vbh * aspect
